@@ -175,6 +175,7 @@ def builtin1 (ext : List (String × Bool)) (f : String) (a : Val) : Val :=
   | "CalculateCheckDigit", .str s => .int (calculateCheckDigit s)
   | "asciiIndices", .str s => if allAscii s then .lst "" s.length else .bad   -- `for i, r := range s` on ASCII text
   | "roundUp10", .int n => if 0 ≤ n then .int (roundUp10 n.toNat) else .bad
+  | "runeIndices", .str s => .lst "" s.length                                   -- `for _, r := range s`: one step per rune
   | "parseStringField", .str s => .str (trimSpace s)
   | "strings.TrimSpace", .str s => .str (trimSpace s)
   | "strings.ToUpper", .str s => if allAscii s then .str (s.map toUpperAscii) else .bad
@@ -213,6 +214,7 @@ def builtin2 (f : String) (a b : Val) : Val :=
       if allAscii a && allAscii b then .bool (a.map toUpperAscii == b.map toUpperAscii) else .bad
   | "index", .str s, .int i =>
       if allAscii s && 0 ≤ i && i < s.length then .int ((s.getD i.toNat ' ').toNat) else .bad
+  | "runeAt", .str s, .int k => if 0 ≤ k && k < s.length then .int ((s.getD k.toNat ' ').val.toNat) else .bad
   | "sliceFrom", .str s, .int lo => sliceAscii s lo s.length
   | _, _, _ => .bad
 
@@ -436,9 +438,9 @@ def relaxFlags : List String :=
    "AllowInvalidAmounts", "AllowZeroEntryAmount", "AllowSpecialCharacters"]
 
 def known1 : List String := ["isAlphanumeric", "isUpperASCII", "len", "utf8.RuneCountInString", "strconv.Atoi", "strconv.Itoa",
-  "CalculateCheckDigit", "asciiIndices", "roundUp10", "parseStringField", "strings.TrimSpace", "strings.ToUpper", "iso3166.Valid", "iso4217.Lookup",
+  "CalculateCheckDigit", "asciiIndices", "roundUp10", "runeIndices", "parseStringField", "strings.TrimSpace", "strings.ToUpper", "iso3166.Valid", "iso4217.Lookup",
   "errors.New", "fmt.Errorf", "opt.recv.CheckTransactionCode", "dict.changeCodeDict", "dict.returnCodeDict", "usabbrev.Valid"]
-def known2 : List String := ["stringField", "alphaField", "numericField", "fmt.Errorf", "index", "sliceFrom", "strings.EqualFold", "strings.Trim", "leastSignificantDigits"]
+def known2 : List String := ["runeAt", "stringField", "alphaField", "numericField", "fmt.Errorf", "index", "sliceFrom", "strings.EqualFold", "strings.Trim", "leastSignificantDigits"]
 def known3 : List String := ["slice", "fmt.Errorf"]
 
 def exprKnown : Expr → Bool
